@@ -498,6 +498,37 @@ def r06_14(chk):
     chk.floor("R06.14", 2, "the URL tests of open_ / open_url / iter_splitlines")
 
 
+def r06_15(chk):
+    chk.rule("R06.15", "GenBank bytes parser, features/sequence separation: (a) the split at the ORIGIN keyword is not a fixed-arity unpacking of an unbounded `.split(b'\\nORIGIN')` (a CONTIG / WGS style record has no ORIGIN block, and 'ORIGIN' may recur in a comment); (b) what follows the keyword ON ITS LINE is not sequence: the value handed to the sequence converter was cut at the first newline after the keyword -- otherwise 'ORIGIN      Chromosome 7 upstream' yields the sequence CHROMOSOMEUPSTREAMACGT...")
+    m = chk.repo.module("parse/genbank.py")
+    fns = [f for f in m.tree.body if isinstance(f, ast.FunctionDef) and f.name == "_" and any("iter_genbank_records.register" in norm(d) for d in f.decorator_list) and f.args.args and f.args.args[0].annotation is not None and norm(f.args.args[0].annotation) == "bytes"]
+    if not fns:
+        raise AnalysisError("iter_genbank_records bytes overload not found")
+    fn = fns[0]
+    seps = [st for st in walk_no_nested(fn) if isinstance(st, ast.Assign) and isinstance(st.value, ast.Call) and isinstance(st.value.func, ast.Attribute) and st.value.func.attr in ("split", "partition", "rpartition") and st.value.args and isinstance(st.value.args[0], ast.Constant) and isinstance(st.value.args[0].value, bytes) and b"ORIGIN" in st.value.args[0].value]
+    if not seps:
+        raise AnalysisError("iter_genbank_records[bytes]: the ORIGIN separation was not found")
+    sp = seps[0]
+    call = sp.value
+    unbounded = call.func.attr == "split" and len(call.args) < 2 and not any(kw.arg == "maxsplit" for kw in call.keywords)
+    fixed = isinstance(sp.targets[0], ast.Tuple) and not any(isinstance(e, ast.Starred) for e in sp.targets[0].elts)
+    chk.decide(not (unbounded and fixed), "R06.15", key(m, "iter_genbank_records[bytes]", "separation tolerates zero or several ORIGIN"), m.loc(sp), f"`{norm(call)[:50]}`", f"`{norm(sp)}` needs exactly one b'\\nORIGIN' in the record: a record without an ORIGIN block raises ValueError (not enough values to unpack)")
+    # (b) the converter's argument
+    convs = [c for c in walk_no_nested(fn) if isinstance(c, ast.Call) and isinstance(c.func, ast.Name) and c.func.id == "converter" and c.args]
+    if not convs:
+        raise AnalysisError("iter_genbank_records[bytes]: converter(seq) not found")
+    arg = convs[0].args[0]
+    names = {x.id for x in ast.walk(arg) if isinstance(x, ast.Name)}
+    cut = False
+    exprs = [arg] + [st.value for st in walk_no_nested(fn) if isinstance(st, ast.Assign) and st.lineno > sp.lineno and st.lineno <= convs[0].lineno and any(isinstance(t, ast.Name) and t.id in names for t in st.targets) and st is not sp]
+    for e in exprs:
+        for c in ast.walk(e):
+            if isinstance(c, ast.Call) and isinstance(c.func, ast.Attribute) and c.func.attr in ("find", "index", "split", "partition", "splitlines") and (c.func.attr == "splitlines" or (c.args and isinstance(c.args[0], ast.Constant) and c.args[0].value in (b"\n", "\n"))):
+                cut = True
+    chk.decide(cut, "R06.15", key(m, "iter_genbank_records[bytes]", "rest of the ORIGIN line is not sequence"), m.loc(convs[0]), "the sequence text starts after the end of the ORIGIN line", f"`{norm(convs[0])}` receives everything after the keyword, including the rest of the ORIGIN line: with 'ORIGIN      Chromosome 7 upstream' the parsed sequence begins CHROMOSOMEUPSTREAM")
+    chk.floor("R06.15", 2, "separation and converter argument")
+
+
 def r06_9(chk):
     chk.rule("R06.9", "GenBank bytes parser: records are split on the line-anchored terminator b'\\n//'; because that separator begins with the newline of the previous line, every later piece starts with a newline -- the piece is left-trimmed before its first line (LOCUS) is taken, and the guard that skips the piece after the last terminator also covers the empty piece (`not piece`, not just piece.isspace())")
     from ..cfg import build
@@ -586,6 +617,7 @@ def r06_11(chk):
 
 
 def run(chk):
+    r06_15(chk)
     r06_14(chk)
     r06_13(chk)
     r06_12(chk)
